@@ -11,7 +11,7 @@ import AsModel.SExp
 import AsModel.Render
 import AsModel.RustPrims
 import AsModel.Exec
-import AsModel.Theorems.C16
+import AsModel.WiringResolve
 /-!
 Line-protocol driver: one request per stdin line, one answer per stdout line.
 The Rust harnesses answer the same lines by calling the real code; the check
